@@ -1,6 +1,6 @@
 (* C15 - Deltas on tensors: the lane loop, and the layout of the result *)
 From Coq Require Import ZArith List Bool Lia ZifyBool.
-From Verif Require Import C15.Model C15.ProofsBase C15.ProofsTensor C15.ProofsDeltas1.
+From Verif Require Import C15.Model C15.ProofsBase C15.ProofsGen C15.ProofsTensor C15.ProofsDeltas1.
 Import ListNotations.
 Open Scope Z_scope.
 
@@ -191,6 +191,9 @@ Lemma deltas_apply_unfold c X axis blocks :
 Proof.
   intros Hnd Hm. unfold deltas_apply.
   destruct (Nat.eqb (length (tsh X)) 0) eqn:E; [apply Nat.eqb_eq in E; contradiction|].
+  cbv zeta.
+  replace (deltas_axis axis (length (tsh X))) with (mod_axis axis (length (tsh X)))
+    by (symmetry; now apply deltas_axis_eq).
   rewrite Hm. reflexivity.
 Qed.
 
@@ -280,7 +283,9 @@ Lemma deltas_empty_axis_error_l c X axis oi :
 Proof.
   intros nd ax Hnd HW HD Hn Hm Hoi. unfold deltas_apply.
   destruct (Nat.eqb (length (tsh X)) 0) eqn:E; [apply Nat.eqb_eq in E; contradiction|].
-  fold nd. fold ax. destruct (num_deltas c) as [|D]; [contradiction|].
+  cbv zeta.
+  replace (deltas_axis axis (length (tsh X))) with ax by (symmetry; now apply deltas_axis_eq).
+  destruct (num_deltas c) as [|D]; [contradiction|].
   cbn [seq mapM].
   rewrite (delta_block_err (dpad c) X ax (filt (context_window c) 1) (Z.of_nat 1 * context_window c) _ oi); auto.
   - rewrite filt_length by lia. lia.
